@@ -5,7 +5,8 @@ from .common import *
 EXPLANATION = ("Decides, on the MIR of the current tree, that every unsynchronised-access API passes through its tracker (R1), "
                "that the conflict matrix of the trackers is symmetric and equals the definition of a data race (R2), and that the "
                "inventory of happens-before edges is exactly the promised one (Y1 required edges, Y2 no others, Y3/Y4 ordering "
-               "tables, O4 thread-local fence predicate). Not decided: that clock comparison equals happens-before on every execution.")
+               "tables, O4 thread-local fence predicate). Not decided: that clock comparison equals happens-before on every execution."
+               " G0/G1 cross-check the tracking and acquire/release/join steps against the reference tree.")
 RULE_TEXT = ("rule instances = primitive sides (required edge), causality writers (allowed edge), ordering-table cells; "
              "non-trivial when matched to a concrete call site / table cell in MIR")
 LEVEL_NOTE = "necessary conditions only"
